@@ -813,6 +813,7 @@ func tierSearches(thorough bool) []rawSearch {
 }
 
 func run(c *h.Check) {
+	runConcurrent(c) // concurrent.go: concurrent ReplayWithUpcast calls through typed upcasters
 	idx := 0
 	report := func(vs []viol, ops any) {
 		for _, v := range vs {
@@ -879,6 +880,11 @@ func run(c *h.Check) {
 }
 
 func replay(c *h.Check, rf *h.ReplayFile) []vrt.Violation {
+	if rf.Scenario != "" {
+		if vs, ok := replayConcurrent(rf); ok {
+			return vs
+		}
+	}
 	var head struct {
 		Part string `json:"part"`
 	}
